@@ -2007,18 +2007,28 @@ sexp sexp_string_utf8_index_ref (sexp ctx, sexp self, sexp_sint_t n, sexp str, s
 }
 
 sexp sexp_read_utf8_char (sexp ctx, sexp port, int i) {
+  int c[3], j, n;
   if (i >= 0x80) {
     if ((i < 0xC0) || (i > 0xF7)) {
       return sexp_user_exception(ctx, NULL, "read-char: invalid utf8 byte", sexp_make_fixnum(i));
-    } else if (i < 0xE0) {
-      i = ((i&0x3F)<<6) + (sexp_read_char(ctx, port)&0x3F);
-    } else if (i < 0xF0) {
-      i = ((i&0x1F)<<12) + ((sexp_read_char(ctx, port)&0x3F)<<6);
-      i += sexp_read_char(ctx, port)&0x3F;
+    }
+    n = (i < 0xE0) ? 1 : ((i < 0xF0) ? 2 : 3);
+    for (j=0; j<n; j++) {
+      c[j] = sexp_read_char(ctx, port);
+      if (c[j] == EOF) {
+        /* the rest of the character is not available (yet): put back */
+        /* what was consumed so the caller can block and retry */
+        while (--j >= 0) sexp_push_char(ctx, c[j], port);
+        sexp_push_char(ctx, i, port);
+        return SEXP_EOF;
+      }
+    }
+    if (n == 1) {
+      i = ((i&0x3F)<<6) + (c[0]&0x3F);
+    } else if (n == 2) {
+      i = ((i&0x1F)<<12) + ((c[0]&0x3F)<<6) + (c[1]&0x3F);
     } else {
-      i = ((i&0x0F)<<18) + ((sexp_read_char(ctx, port)&0x3F)<<12);
-      i += (sexp_read_char(ctx, port)&0x3F)<<6;
-      i += sexp_read_char(ctx, port)&0x3F;
+      i = ((i&0x0F)<<18) + ((c[0]&0x3F)<<12) + ((c[1]&0x3F)<<6) + (c[2]&0x3F);
     }
   }
   return sexp_make_character(i);
